@@ -20,7 +20,7 @@ import (
 )
 
 // ---------------------------------------------------------------------------
-// Host universe: 6 routable IPv4 hosts in 3 /16 groups.
+// Host universe: 6 routable IPv4 hosts in 3 /16 groups and 2 routable IPv6 hosts in one /32 group.
 
 type hostInfo struct{ ip, group string }
 
@@ -28,6 +28,8 @@ var universe = []hostInfo{
 	{"8.1.0.1", "8.1.0.0"}, {"8.1.77.2", "8.1.0.0"},
 	{"23.5.1.1", "23.5.0.0"}, {"23.5.200.9", "23.5.0.0"},
 	{"45.33.2.7", "45.33.0.0"}, {"45.33.250.250", "45.33.0.0"},
+	// two IPv6 hosts of one /32 (their peer addresses read "[host]:port")
+	{"2a01:4f8:1::7", "2a01:4f8::"}, {"2a01:4f8:2::9", "2a01:4f8::"},
 }
 
 const (
